@@ -74,6 +74,7 @@ static Verdict check_c15(const TCase& tc, Stats& st)
     // inputs on which the grammar loops were discarded above: from here on every call returns quickly, and a call that does not return is the finding
     eng::stall_reason() = "a call on the parser never returned (after an earlier call ended with an exception, from inside a functor, or concurrently)";
     eng::watchdog_arm(60);
+    tpl::g_nonconst_calls = 0;      // per case: a counter that survives a case would make every later case (and every shrink candidate) "fail"
     std::vector<unsigned char> image(sizeof(PS)); std::memcpy(image.data(), &p, sizeof(PS));
     auto image_same = [&]() { return std::memcmp(image.data(), &p, sizeof(PS)) == 0; };
     // isolated results (each on the freshly injected, otherwise untouched object, one at a time)
